@@ -1,15 +1,16 @@
 #!/bin/bash
-# tools/wave2.sh <Cnn> : verifies the second-wave seeded changes /tmp/seeds2/<Cnn>/s1,s2 (written by
+# [WAVE=3] tools/wave2.sh <Cnn> : verifies the second-wave seeded changes /tmp/seeds2/<Cnn>/s1,s2 (written by
 # a sub-agent that saw only the property text), imports the confirmed ones as
 # seeded/<Cnn>-w2-<k>/ and runs the property's quick check against each.
 set -u
 P="$1"
+WAVE="${WAVE:-2}"; SRC="${SRC:-/tmp/seeds$WAVE}"
 cd "$(dirname "$0")/.."
 [ -d /tmp/seedbase ] || git -C /repo worktree add -q --detach /tmp/seedbase HEAD
 for k in 1 2; do
-  S=/tmp/seeds2/$P/s$k
+  S=$SRC/$P/s$k
   [ -f "$S/patch.diff" ] || { echo "$P s$k: no patch"; continue; }
-  id="$P-w2-$k"
+  id="$P-w$WAVE-$k"
   tools/verify_seed.sh "$S" /tmp/seedbase /tmp/seedverify2/$id.json > /tmp/seedverify2/$id.log 2>&1
   ok=$(python3 -c "import json;print(json.load(open('/tmp/seedverify2/$id.json'))['confirmed'])" 2>/dev/null)
   echo "$id confirmed=$ok $(tr -d '\n' < /tmp/seedverify2/$id.json | cut -c1-220)"
